@@ -1,6 +1,7 @@
 # C03 — condition variable: model coq/C03 (fine-grained, any vCPUs), tie = engine E2 (single-vCPU
 # deterministic replay of the real scheduler): harness/E2 + harness/C03/ops_c03.cpp
 import re
+import sys
 from vlib import *
 
 W = 1 << 64
@@ -43,7 +44,7 @@ def parse_trace(line):
 class Check(DiffCheck):
     id = 'C03'
     coq_dirs = ['Base', 'C04', 'C03']
-    coq_targets = ['C03/C03_Proofs.vo']
+    coq_targets = ['C03/C03_WF.vo', 'C03/C03_Proofs.vo', 'C03/C03_Queue.vo']
     properties_v = 'C03/C03_Properties.v'
     extract_v = 'C03/C03_Extract.v'
     runner_ml = 'ocaml/C03_run.ml'
@@ -61,10 +62,9 @@ class Check(DiffCheck):
     partial_note = ''
 
     def build_impl(self):
-        exe, log = cxx_build(self.id, ['harness/E2/e2_main.cpp', 'harness/E2/ops_core.cpp', 'harness/C03/ops_c03.cpp'], libphoton=True)
-        if not exe:
-            raise RuntimeError(log)
-        return exe
+        sys.path.insert(0, os.path.join(VERIF, 'harness', 'E2'))
+        import e2lib
+        return e2lib.build_impl(self.id, ['harness/C03/ops_c03.cpp'])
 
     def impl_env(self):
         e = DiffCheck.impl_env(self)
